@@ -24,14 +24,15 @@ work = cm.reexec_isolated(PID)
 args = cm.parse_args(sys.argv[1:])
 
 
-def build_system(nmol, reorgs, cortimes, T=200, energies=None, couplings=None, nt=100):
+def build_system(nmol, reorgs, cortimes, T=200, energies=None, couplings=None, nt=100, ground=0.0):
     import quantarhei as qr
     ta = qr.TimeAxis(0.0, nt, 1.0)
     mols = []
     with qr.energy_units("1/cm"):
         for k in range(nmol):
             en = energies[k] if energies else 10000.0 + 70.0 * k
-            mol = qr.Molecule([0.0, en])
+            # a non-zero ground-state energy (first molecule): the rotating frame then also shifts the ground block
+            mol = qr.Molecule([ground if k == 0 else 0.0, en + (ground if k == 0 else 0.0)])
             cf = qr.CorrelationFunction(ta, dict(ftype="OverdampedBrownian-HighTemperature", reorg=reorgs[k],
                                                  cortime=cortimes[k], T=T))
             mol.set_transition_environment((0, 1), cf)
@@ -194,9 +195,10 @@ def propagate_monitors(chk, tier):
         reorgs = [0.0 if zero else float(r.choice([20, 50, 80])) for _ in range(nmol)]
         cort = [float(r.choice([30, 50, 80])) for _ in range(nmol)]
         coup = [(a, a + 1, float(r.choice([30, 80, -50]))) for a in range(nmol - 1)]
-        c = {"kind": "propagate", "nmol": nmol, "depth": depth, "reorgs": reorgs, "cortimes": cort, "couplings": coup}
+        ground = float(r.choice([0.0, 150.0, 150.0, 400.0]))
+        c = {"kind": "propagate", "nmol": nmol, "depth": depth, "reorgs": reorgs, "cortimes": cort, "couplings": coup, "ground": ground}
         try:
-            ta, agg, ham, sbi = build_system(nmol, reorgs, cort, T=200, couplings=coup, nt=60)
+            ta, agg, ham, sbi = build_system(nmol, reorgs, cort, T=200, couplings=coup, nt=60, ground=ground)
             with contextlib.redirect_stdout(io.StringIO()):
                 hy = qr.KTHierarchy(ham, sbi, depth)
             psi = numpy.array([1.0] + [0.5 + 0.3j * (i + 1) for i in range(nmol)])
@@ -231,7 +233,7 @@ def propagate_monitors(chk, tier):
     # analytic pure-dephasing limit for uncoupled sites (validated only)
     c = {"kind": "dephasing_limit"}
     try:
-        ta, agg, ham, sbi = build_system(2, [80.0, 100.0], [30.0, 40.0], T=200, energies=[10000.0, 10150.0], nt=150)
+        ta, agg, ham, sbi = build_system(2, [80.0, 100.0], [30.0, 40.0], T=200, energies=[10000.0, 10150.0], nt=150, ground=150.0)
         t = ta.data
         psi = numpy.array([1.0, 0.8j, -0.6 + 0.3j])
         psi = psi / numpy.linalg.norm(psi)
